@@ -217,7 +217,13 @@ class Watcher(Party):
         self.t = ts
         self.end = max(self.end, ts + dur)
         E = {"ts": ts, "off": 0, "dur": dur, "data": gen.small_data(r, self.cfg.get("alphabet", 2))}
-        return {"op": "heartbeat", "b": self.b, "ev": E, "pulse": self.pulse}
+        s = {"op": "heartbeat", "b": self.b, "ev": E, "pulse": self.pulse}
+        if getattr(self, "mirror", None):
+            # two buckets fed from one stream: the client hands the very same heartbeat object to both loops
+            self.n = getattr(self, "n", 0) + 1
+            tag = "%s:%d" % (self.b, self.n)
+            return [dict(s, hb_tag=tag), dict(s, b=self.mirror, hb_reuse=tag)]
+        return s
 
 
 class Operator(Party):
